@@ -92,8 +92,9 @@ func c13ConcRound(items []c13ConcItem, reps int) string {
 
 func raceSite(rep string) string {
 	for _, line := range strings.Split(rep, "\n") {
-		if strings.Contains(line, "github.com/google/go-tdx-guest/") && strings.Contains(line, "()") {
-			return strings.TrimSpace(strings.Split(strings.TrimPrefix(strings.TrimSpace(line), "github.com/google/go-tdx-guest/"), "(")[0])
+		l := strings.TrimSpace(line)
+		if strings.HasPrefix(l, "github.com/google/go-tdx-guest/") && strings.HasSuffix(l, "()") {
+			return strings.NewReplacer("(", "", ")", "", "*", "").Replace(strings.TrimSuffix(strings.TrimPrefix(l, "github.com/google/go-tdx-guest/"), "()"))
 		}
 	}
 	return "unknown"
